@@ -189,12 +189,12 @@ func Analyze(repoDir, modDir string) (*Result, error) {
 					if tt, ft := term(toSt.Tag(k)), term(fromSt.Tag(k)); tt != ft && !(alias && strings.EqualFold(strings.TrimPrefix(tt, "ordered"), strings.TrimPrefix(ft, "ordered"))) {
 						site.Problems = append(site.Problems, Problem{"field-term", tf.Name(), fmt.Sprintf("field %d is the term %q in %s but %q in %s", k, tt, toName, ft, fromName)})
 					}
-					_, ti := tf.Type().Underlying().(*types.Interface)
-					_, si := sf.Type().Underlying().(*types.Interface)
-					if ti && si && types.Identical(tf.Type().Underlying(), sf.Type().Underlying()) {
-						// two interface types with the same method set have the same representation and method table
-						// (Activity.Actor is an Item, IntransitiveActivity.Actor a CanReceiveActivities): compatible
-					} else if !types.Identical(tf.Type(), sf.Type()) {
+					// The field types must be IDENTICAL. Two distinct interface types with the same method set have the same two-word
+					// representation, but not the same method table: a value stored through a view whose field is declared with the
+					// other interface type carries that type's itab, and a type assertion or == on the original then fails although
+					// the dynamic type and value are right (Activity.Actor Item vs IntransitiveActivity.Actor CanReceiveActivities
+					// on the pinned tree).
+					if !types.Identical(tf.Type(), sf.Type()) {
 						site.Problems = append(site.Problems, Problem{"field-type", tf.Name(), fmt.Sprintf("field %d: %s vs %s", k, tf.Type(), sf.Type())})
 					}
 					if toOff[k] != fromOff[k] {
